@@ -89,6 +89,21 @@ CLAIMED = {
         'not verified.  Two recorded known findings: bytes machines are not faithful on multi-byte *input* symbols (lead byte consumed then NonTerminal; "." and '
         'negated classes match one byte).  The quick tier samples expressions/strings, the thorough tier is exhaustive up to the stated bounds.',
    technique='Coq proof (derivatives = standard semantics; longest-viable-prefix run) + exhaustive small-scope correspondence', design='6 C11'),
+ 'C10': dict(
+   text='Coq theorems (Properties/C10.v) over an interpreter for the automata engine (Model/Engine.v: state.run / transition / __getitem__ order, limit -> absolute '
+        'ending, dfa delegate with repeat cycles and stasis, struct decode) and over the input sources (Model/Source.v: peeking / chaining): for every machine graph, '
+        'state, data and input a state that completes has sent <= every enclosing ending and <= the point where its limit was resolved + limit; a limited parser consumed '
+        'a prefix no longer than the limit, counted exactly that prefix and left the rest in order; an ending only shrinks; once limited only the no-input edge is followed; '
+        'a dfa that ends terminal ran exactly `repeat` initial-->terminal cycles and a cycle stalling non-terminal fails the parse; for every legitimate history of '
+        'next/push/peek/chain, taken ++ remaining = everything supplied and sent = |taken| (and sent + |remaining| is conserved for any history).  Tie: live machine graphs '
+        'are dumped and run through the extracted interpreter against machine.run() (limits 0..5 around 8 leaf parsers, length/count-prefixed bodies, regex repeats, '
+        'all inputs over {a,b} up to length 5); random op sequences on the real source classes; library parsers with decide edges run under a run/delegate monitor with '
+        'a byte-level framing oracle.',
+   note='Trusted: Coq kernel; extraction + driver; the graph dumper (props/engine_common.py) which refuses what the interpreter does not cover (decide/predicate edges, '
+        'callable limits, recognizers, custom process/terminate) - those library parsers (SSTRING, STRING, EPATH, CPF, typed_data, status) are judged on the implementation '
+        'by the monitor (sent <= resolved ending, ending never relaxed, sent = pulled - held) and by framing predicted from the raw bytes.  Complete inputs only; fresh '
+        'machines (cpppo dfas keep cycle/final from an earlier run, which leaks into .terminal for repeat=0 over a nested dfa - described in DESIGN.md).',
+   technique='Coq proof (induction over interpreter fuel / operation histories) + model/implementation correspondence + runtime monitor', design='6 C10'),
 }
 PENDING = {}
 ALL = ['C%02d' % i for i in range(1, 21)]
